@@ -99,7 +99,7 @@ func TestC19(t *testing.T) {
 	if os.Getenv("VERIF_TIER") == "thorough" {
 		maxLen = 8 << 20
 	}
-	col := ev.Get("C19", "output", "1-6 jobs x 1-4 tasks running at the same time through the real TaskRunner; each task has 1-4 commands, each 'vhelper emit <spec>' (a generated sequence of stdout/stderr chunks with pauses; sizes 0 B to 300 KB, 8 MB in the thorough tier; partial last lines; arbitrary bytes or valid UTF-8) an interpreter builtin (echo/printf), a child that re-opens /dev/stdout or /dev/stderr by path (> and >>), and emit commands whose streams the script merges (2>&1, 1>&2: the log must keep the order of the writes); every chunk starts with a (job,task,stream,#) marker; task names over letters/digits/_-. space and non-ASCII, in a quarter of the cases two names of one job that differ in a single character (space/underscore, case, accents, CJK); oracle: FileOutputStore.Reader(job,task,stream) equals the concatenation, in order, of that task's chunks for that stream over all its commands, GET /job/logs (with the job id in its canonical or another accepted spelling: upper case, braces, urn:uuid:, without hyphens) returns the same as strings (UTF-8 tasks), a task the job does not have and an unknown job give 404; in half of the cases a second runner is started from a store that knows the jobs but not their tasks' start (a crash between log write and state save) and must return the same logs; a sixth of the tasks end with a failing command (their output up to it must still be complete) and half of the cases run a second round of the same jobs on the same store; non-trivial = >=64 KiB on a stream or >=2 commands or both streams used, with >=2 tasks writing at once; distinct by (shape of the case)")
+	col := ev.Get("C19", "output", "1-6 jobs x 1-4 tasks running at the same time through the real TaskRunner; each task has 1-4 commands, each 'vhelper emit <spec>' (a generated sequence of stdout/stderr chunks with pauses; sizes 0 B to 300 KB, 8 MB in the thorough tier; partial last lines; arbitrary bytes or valid UTF-8) an interpreter builtin (echo/printf), a child that re-opens /dev/stdout or /dev/stderr by path (> and >>), emit commands whose streams the script merges (2>&1, 1>&2: the log must keep the order of the writes), and a command that leaves a background child behind which writes 0.3 s after the command's own process has ended (the runner's kill timeout is the default or 100 ms); every chunk starts with a (job,task,stream,#) marker; task names over letters/digits/_-. space and non-ASCII, in a quarter of the cases two names of one job that differ in a single character (space/underscore, case, accents, CJK); oracle: FileOutputStore.Reader(job,task,stream) equals the concatenation, in order, of that task's chunks for that stream over all its commands, GET /job/logs (with the job id in its canonical or another accepted spelling: upper case, braces, urn:uuid:, without hyphens) returns the same as strings (UTF-8 tasks), a task the job does not have and an unknown job give 404; in half of the cases a second runner is started from a store that knows the jobs but not their tasks' start (a crash between log write and state save) and must return the same logs; a sixth of the tasks end with a failing command (their output up to it must still be complete) and half of the cases run a second round of the same jobs on the same store; non-trivial = >=64 KiB on a stream or >=2 commands or both streams used, with >=2 tasks writing at once; distinct by (shape of the case)")
 	vh := helper(t)
 	rapid.Check(t, func(rt *rapid.T) {
 		nJobs := rapid.IntRange(1, 6).Draw(rt, "nJobs")
@@ -107,7 +107,7 @@ func TestC19(t *testing.T) {
 		defer os.RemoveAll(specDir)
 		defs := &definition.PipelinesDef{Pipelines: definition.PipelinesMap{}}
 		expects := make([][]taskExpect, nJobs)
-		big, multiCmd, bothStreams, anyFails, merged, lookalike, restarted := false, false, false, false, false, false, false
+		big, multiCmd, bothStreams, anyFails, merged, lookalike, restarted, lateWriter := false, false, false, false, false, false, false, false
 		var lastIDs []uuid.UUID
 		writers := 0
 		for j := 0; j < nJobs; j++ {
@@ -131,7 +131,21 @@ func TestC19(t *testing.T) {
 				nCmd := rapid.IntRange(1, 4).Draw(rt, "nCommands")
 				var script []string
 				for c := 0; c < nCmd; c++ {
-					switch rapid.IntRange(0, 7).Draw(rt, "cmdKind") {
+					switch rapid.IntRange(0, 8).Draw(rt, "cmdKind") {
+					case 8:
+						// a command that leaves a writer behind: the child it started in the background keeps the
+						// task's streams and writes some time after the command's own process has gone (longer
+						// after than the kill timeout of this case, when it has a short one)
+						early := fmt.Sprintf("<j%d/t%d/early#%d>", j, ti, c)
+						late := fmt.Sprintf("<j%d/t%d/late#%d>%s", j, ti, c, rapid.StringMatching(`[a-zA-Z0-9 _.,:-]{0,40}`).Draw(rt, "lateText"))
+						to := rapid.SampledFrom([]string{"", " >&2"}).Draw(rt, "lateStream")
+						script = append(script, "sh -c "+shq("(sleep 0.3; printf '%s' "+shq(late)+to+") & printf '%s' "+shq(early)+to))
+						if to == "" {
+							te.stdout = append(te.stdout, (early + late)...)
+						} else {
+							te.stderr = append(te.stderr, (early + late)...)
+						}
+						lateWriter = true
 					case 6:
 						// a child that re-opens its standard streams by path
 						txt := fmt.Sprintf("<j%d/t%d/devstdout#%d>%s", j, ti, c, rapid.StringMatching(`[a-zA-Z0-9 _.,:-]{0,40}`).Draw(rt, "devText"))
@@ -201,7 +215,10 @@ func TestC19(t *testing.T) {
 			}
 			defs.Pipelines[fmt.Sprintf("p%d", j)] = pd
 		}
-		w := newRealWorld(rt, defs, 0)
+		// (the kill timeout plays no part in a task that ends by itself; with a short one, output that arrives
+		// later than that after a command's own process ended still belongs to the log)
+		kt := rapid.SampledFrom([]time.Duration{0, 0, 100 * time.Millisecond}).Draw(rt, "killTimeout")
+		w := newRealWorld(rt, defs, kt)
 		defer w.close()
 		rounds := rapid.IntRange(1, 2).Draw(rt, "rounds")
 		for round := 0; round < rounds; round++ {
@@ -282,7 +299,7 @@ func TestC19(t *testing.T) {
 		}
 		nontrivial := (big || multiCmd || bothStreams) && writers >= 2
 		col.Add(fmt.Sprintf("%d/%d/%v/%v/%v/%v", nJobs, writers, big, multiCmd, bothStreams, expectsShape(expects)), nontrivial,
-			map[string]int{"failing-task": btoi(anyFails), "second-round-after-failure": btoi(anyFails && rounds == 2), "two-rounds": btoi(rounds == 2), ">=64KiB-on-a-stream": btoi(big), ">=2-commands": btoi(multiCmd), "both-streams": btoi(bothStreams), "writers>=2": btoi(writers >= 2), "writers>=6": btoi(writers >= 6), "merged-streams": btoi(merged), "lookalike-task-names": btoi(lookalike), "logs-after-restart": btoi(restarted)}, writers,
+			map[string]int{"failing-task": btoi(anyFails), "second-round-after-failure": btoi(anyFails && rounds == 2), "two-rounds": btoi(rounds == 2), ">=64KiB-on-a-stream": btoi(big), ">=2-commands": btoi(multiCmd), "both-streams": btoi(bothStreams), "writers>=2": btoi(writers >= 2), "writers>=6": btoi(writers >= 6), "merged-streams": btoi(merged), "late-writer-after-command-ended": btoi(lateWriter), "short-kill-timeout": btoi(kt > 0), "lookalike-task-names": btoi(lookalike), "logs-after-restart": btoi(restarted)}, writers,
 			map[string]interface{}{"jobs": nJobs, "tasks_writing": writers, "shape": expectsShape(expects)})
 	})
 }
